@@ -257,25 +257,28 @@ package gorp
 //@   modifies &s.entries, s.reverse
 
 //@ # ---- commit order vs index flush (C17 over schedules: "two transactions updating the same row").
-//@ # Ghost: SpecApplied counts the key-value commits applied to the store; SpecFlushed is the
-//@ # highest such number whose staged index changes have been flushed into the committed index.
-//@ # For the committed index to agree with the store, flushes must happen in the order of the
-//@ # key-value commits: when a transaction flushes, no transaction applied after it may have
-//@ # flushed already. Between the two steps of Commit other transactions may commit and flush
-//@ # (havoc + rely: both counters only grow).
-//@ # (SpecApplied lives in x/kv with the trusted contract of Tx.Commit)
+//@ # Ghost: *SpecApplied counts the key-value commits applied to the store, *SpecMine is the number
+//@ # this transaction's commit was given, *SpecFlushed is the highest such number whose staged index
+//@ # changes have been flushed into the committed index. For the committed index to agree with the
+//@ # store, flushes must happen in the order of the key-value commits: when a transaction flushes,
+//@ # no transaction applied after it may have flushed already. The key-value Commit is an engine
+//@ # call; its effect on the ghost state and the interference of other transactions between the
+//@ # two steps of Commit are stated together after the call (havoc + rely): this commit got a
+//@ # number above everything applied before, other transactions may have been applied and flushed
+//@ # since, nothing is flushed that was not applied, and the counters only grow.
+//@ ghost SpecApplied *int
+//@ ghost SpecMine *int
 //@ ghost SpecFlushed *int
-//@ import kv "github.com/synnaxlabs/x/kv"
 //@ trusted func (s *txState) runCleanups(committed bool)
 //@   modifies SpecFlushed
 //@ func (t *tx) Commit(ctx context.Context, opts ...any) (err error)
-//@   # nothing is flushed that has not been applied (without the interference below the assertion
-//@   # is provable from this: the transaction's own number is old applied + 1)
-//@   requires SpecFlushed != kv.SpecApplied && *SpecFlushed <= *kv.SpecApplied
-//@   let_after "err := t.Tx.Commit(ctx, opts...)" mine int = *kv.SpecApplied
-//@   havoc_after "err := t.Tx.Commit(ctx, opts...)" kv.SpecApplied
+//@   requires SpecFlushed != SpecApplied && SpecFlushed != SpecMine && SpecApplied != SpecMine && *SpecFlushed <= *SpecApplied
+//@   havoc_after "err := t.Tx.Commit(ctx, opts...)" SpecApplied
+//@   havoc_after "err := t.Tx.Commit(ctx, opts...)" SpecMine
 //@   havoc_after "err := t.Tx.Commit(ctx, opts...)" SpecFlushed
-//@   assume_after "err := t.Tx.Commit(ctx, opts...)" *kv.SpecApplied >= mine && *SpecFlushed >= old(*SpecFlushed) && *SpecFlushed <= *kv.SpecApplied
-//@   # FAILS: nothing orders the flush with the key-value commit (known finding)
-//@   assert_before "t.state.runCleanups(err == nil)" err == nil ==> *SpecFlushed < mine
-//@   modifies kv.SpecApplied, SpecFlushed
+//@   assume_after "err := t.Tx.Commit(ctx, opts...)" err == nil ==> old(*SpecApplied) < *SpecMine && *SpecMine <= *SpecApplied
+//@   assume_after "err := t.Tx.Commit(ctx, opts...)" *SpecFlushed >= old(*SpecFlushed) && *SpecFlushed <= *SpecApplied
+//@   # FAILS: nothing orders the flush with the key-value commit (known finding). Without the
+//@   # interference (*SpecApplied == old + 1, *SpecFlushed unchanged) it is provable.
+//@   assert_before "t.state.runCleanups(err == nil)" err == nil ==> *SpecFlushed < *SpecMine
+//@   modifies SpecApplied, SpecMine, SpecFlushed
